@@ -483,7 +483,11 @@ class Ctx:
               "wall_s": round(time.time() - self.t0, 2), "violations": len(lines)}
         if not cov["samples"]:
             cov["samples"] = ["(no case executed)"]
-        json.dump(ev, open(os.path.join(V, "evidence", pid + ".json"), "w"), indent=1, default=str)
+        # evidence/ holds runs against /repo itself only; a run against another tree (VERIF_REPO: seeded changes) keeps its
+        # record under build/
+        evdir = os.path.join(V, "evidence") if not ALT else os.path.join(BUILD, "alt-" + ALT, "evidence")
+        os.makedirs(evdir, exist_ok=True)
+        json.dump(ev, open(os.path.join(evdir, pid + ".json"), "w"), indent=1, default=str)
         for l in lines:
             print(l)
         print("RESULT property=%s tier=%s obligations=%d discharged=%d evaluations=%d distinct=%d violations=%d known=%d wall=%.1fs"
